@@ -228,8 +228,7 @@ def rule_ip_window(ctx):
     ctx.check(bool(dnf2) and all(any(v == 1 for (_, v) in c) for c in dnf2), R, "crash-context-only", b.where(pb), "the window is produced only when a crash context was supplied", "the window can be produced without a crash context")
 
 
-def rule_list_after_producers(ctx):
-    R = "C07/list-after-producers"
+def rule_list_after_producers(ctx, R="C07/list-after-producers"):
     prog = ctx.prog
     g = ctx.body(R, c01.GEN)
     if g is None:
@@ -255,11 +254,33 @@ def rule_list_after_producers(ctx):
         o = Origin(b)
         hv = [o.call_args(x)[1] for x, t in b.calls(lambda c: c.is_("mem_writer::MemoryWriter::alloc_with_val"))]
         av = [o.call_args(x)[1] for x, t in b.calls(lambda c: (c.short or "").endswith("alloc_from_array"))]
-        ok = bool(hv) and bool(av) and LA.alen(hv[0], prog) == LA.alen_coll(av[0], prog) and any(s[0] == "field" and s[2] == "memory_blocks" for s in walk(av[0]))
-        ctx.check(ok, R, "consumer-source", b.where(0), "count and array of the memory list both come from config.memory_blocks", "memory list count/array do not both come from memory_blocks")
+        def is_blocks(e):
+            e = core(e)
+            while e[0] == "call" and e[1].split("::")[-1] in ("deref", "as_slice", "as_ref", "borrow") and e[2]:
+                e = core(e[2][0])
+            return e[0] == "field" and e[2] == "memory_blocks" and root(e[1]) == ("param", 1)
+        ok = bool(hv) and bool(av) and LA.alen(hv[0], prog) == LA.alen_coll(av[0], prog) and is_blocks(av[0])
+        ctx.check(ok, R, "consumer-source", b.where(0), "the memory list is config.memory_blocks itself: same count, the descriptors as the producers pushed them",
+                  "the memory list is not written from config.memory_blocks as it is (array: %s): descriptors that were re-sorted, merged or filtered no longer describe the bytes their producer appended" % (show(av[0])[:80] if av else "?"))
+
+
+MEMORY_BLOCKS_MUTATORS = {
+    ("linux::sections::thread_list_stream::fill_thread_stack", "push"): "one descriptor per captured stack, built next to the append (C07/desc-copy)",
+    ("linux::sections::thread_list_stream::write", "push"): "the instruction-pointer window (C07/ip-window)",
+    ("linux::sections::app_memory::write", "push"): "one descriptor per application region (C07/desc-copy)",
+    ("linux::minidump_writer::MinidumpWriter::dump", "clear"): "per-dump reset (C19)",
+}
+
+
+def rule_memory_blocks_writers(ctx, R="C07/memory-blocks-writers"):
+    """a descriptor is final when it is pushed: the producers push, dump() clears, and nothing else touches the list or an element of it
+    (growing, merging or re-pointing a pushed descriptor makes it name bytes its producer never appended)"""
+    from rules import c04
+    c04.rule_list_mutators(ctx, R, "memory_blocks", MEMORY_BLOCKS_MUTATORS, "the memory-block list", 4, adt="minidump_writer::MinidumpWriter")
 
 
 def run(ctx):
+    rule_memory_blocks_writers(ctx)
     rule_desc_copy(ctx)
     rule_every_region_pushed(ctx)
     rule_ip_window(ctx)
